@@ -309,6 +309,7 @@ class World:
         self.real: dict[int, object] = {}
         self.n_uid = 0
         self.alias_nodes: list[N] = []      # every alias ever created (attached or not)
+        self.pre_designated: dict[int, N | None] = {}
         self.ever: set[str] = set()         # every path that ever held a member
         self.known: list[tuple[str, str, object, object]] = []   # known findings met: (id, what, observed, expected)
         self.nontrivial = False
@@ -359,14 +360,15 @@ class World:
 
     def bind(self, al: N, tnode: N | None) -> None:
         """Model of 'alias is (re)bound / (re)registered'.  Registration needs the final target of the chain: when the chain
-        cannot be followed at that moment the real code skips (or aborts) the registration -> stamp -1 (outside the oracle,
+        cannot be followed at that moment the real code skips (or aborts) the registration -> unreg (outside the oracle,
         a resolved alias over an unresolved link is C06's subject)."""
         self.tree.bind(al, tnode)
+        al.unreg = False
         if al.target is not None and al.target.kind == "alias":
             try:
                 self.tree.final(al)
             except (MCyclic, MUnresolvable, MOutOfDomain):
-                al.stamp = -1
+                al.unreg = True
 
     def receiver(self, where: str):  # noqa: ANN201
         if where == "coll":
@@ -412,6 +414,9 @@ class World:
     # -- operations ---------------------------------------------------------------------------
     def step(self, op: list) -> StepInfo:
         info = StepInfo()
+        # what every unresolved alias designates *before* the step (an alias may get resolved as a side effect in the middle of
+        # an operation - or by the walker's own probing after the previous step - and its target be replaced/deleted afterwards)
+        self.pre_designated = {al.uid: self.tree.node_at(al.target_path) for al in self.alias_nodes if al.target is None}
         getattr(self, "op_" + op[0])(op, info)
         return info
 
@@ -794,8 +799,11 @@ class World:
             # resolved as a side effect the model did not mirror: adopt iff it is what the target path designates
             want = self.tree.node_at(node.target_path)
             if want is None or rt is not real[want.uid]:
-                raise Violation(f"alias {where} -> {node.target_path!r} got resolved to something else than the object at that path",
-                                repr(rt), repr(want))
+                before = self.pre_designated.get(node.uid)
+                if before is None or rt is not real[before.uid]:
+                    raise Violation(f"alias {where} -> {node.target_path!r} got resolved to something else than the object at that path",
+                                    repr(rt), repr(want))
+                want = before
             self.bind(node, want)
             rec.count("implicit_resolutions_adopted")
         elif rt is not real[node.target.uid]:
@@ -806,6 +814,16 @@ class World:
                 self.bind(node, info.new_node)
             else:
                 raise Violation(f"target of alias {where} changed although no operation retargeted it", repr(rt), repr(node.target))
+
+    def is_attached(self, obj) -> bool:  # noqa: ANN001
+        """Is the real object reachable from the collection through the members dicts (i.e. does it live in the tree)?"""
+        while True:
+            parent = obj.parent
+            if parent is None:
+                return self.coll.members.get(obj.name) is obj
+            if parent.is_alias or parent.members.get(obj.name) is not obj:
+                return False
+            obj = parent
 
     def check_alias(self, path: str, node: N, obj, info: StepInfo) -> None:  # noqa: ANN001, ARG002
         rec = self.rec
@@ -820,11 +838,10 @@ class World:
             rec.count("backref_checks_skipped_unfollowable_chain")
             return
         if listed is not obj:
-            if rt.is_alias and node.stamp == -1:
+            if rt.is_alias and node.unreg:
                 rec.count("backref_checks_skipped_unfollowable_chain")   # bound while the chain could not be followed
                 return
-            if (listed is not None and listed.is_alias and listed.path == obj.path
-                    and (listed._parent is None or listed._parent.members.get(listed.name) is not listed)):
+            if listed is not None and listed.is_alias and listed.path == obj.path and not self.is_attached(listed):
                 # the slot is held by a *detached* alias of the same path (one that used to live at this path): it was retargeted
                 # through a stale back-reference and overwrote the entry of the live alias
                 if not any(k[0] == F_STALE for k in self.known):
